@@ -146,6 +146,6 @@ Definition badwn_C04 := badwn_mon mon_C04.
 Definition badwn_C05 := badwn_mon mon_C05.
 Definition badwn_C08 := badwn_mon mon_C08.
 Definition badwn_C09 := badwn_mon mon_C09.
-Definition badwn_C12 (ts : list trace) : list nat :=
-  flat_map (fun t => match mon_run_wn (t_confs t) (mon_C12 (t_ordered t) (t_confs t)) (obs0 (t_confs t)) [] (t_evs t) with
-                     | Some w => [w] | None => [] end) ts.
+(* C12: a stop signal to p is judged against the processes that DEPEND on p, so the windows that explain a
+   violation are those of other names: the whole history up to the violation counts *)
+Definition badwn_C12 (ts : list trace) : list nat := badw_C12 ts.
